@@ -259,7 +259,14 @@ def parse_args(args: List[str]) -> Tuple[ArgumentParser, Namespace]:
         "--password", type=str, required=False, default="",
         help="optional BIP39 password"
     )
-    return parser, parser.parse_args(args)
+    parsed_args = parser.parse_args(args)
+    # address index is not hardened - rows of interval [START, END) have to
+    # stay below 2**31, anything above would be derived as hardened child
+    if parsed_args.interval[1] > 2 ** 31:
+        parser.error(
+            "Address index interval has to end at or below {}".format(2 ** 31)
+        )
+    return parser, parsed_args
 
 
 def main():
